@@ -368,33 +368,48 @@ Qed.
 Definition lit_byte (c : byte) : bool :=
   is_digit c || Byte.eqb c "."%byte || Byte.eqb c "e"%byte || Byte.eqb c "+"%byte || Byte.eqb c "-"%byte.
 
+(* one step of strings.ToLower: either the ASCII mapping of the head byte, or one of the two
+   multi-byte runes whose lower case is ASCII ('i', 'k') *)
+Lemma go_to_lower_cons c r :
+  go_to_lower (c :: r) = to_lower_byte c :: go_to_lower r \/
+  (exists tl, go_to_lower (c :: r) = "i"%byte :: tl) \/ (exists tl, go_to_lower (c :: r) = "k"%byte :: tl).
+Proof.
+  destruct c; try (left; reflexivity).
+  - (* xc4 *) destruct r as [|c2 r2]; [left; reflexivity|].
+    destruct c2; try (left; reflexivity). right; left; eexists; reflexivity.
+  - (* xe2 *) destruct r as [|c2 r2]; [left; reflexivity|].
+    destruct c2; try (left; reflexivity).
+    destruct r2 as [|c3 r3]; [left; reflexivity|].
+    destruct c3; try (left; reflexivity). right; right; eexists; reflexivity.
+Qed.
+
 (* when the result of strings.ToLower is a literal, it is the plain ASCII lower-casing *)
 Lemma lower_agree s : forallb lit_byte (go_to_lower s) = true -> go_to_lower s = to_lower s.
 Proof.
   induction s as [|c r IH]; [reflexivity|]. intro H.
-  assert (Hgen : go_to_lower (c :: r) = to_lower_byte c :: go_to_lower r ->
-                 go_to_lower (c :: r) = to_lower (c :: r)).
-  { intro E. rewrite E in H |- *. cbn [forallb] in H. apply andb_true_iff in H. destruct H as [_ H].
-    unfold to_lower. cbn [map]. f_equal. apply IH. exact H. }
-  destruct c; try (apply Hgen; reflexivity).
-  - (* xc4 *) destruct r as [|c2 r2]; [apply Hgen; reflexivity|].
-    destruct c2; try (apply Hgen; reflexivity). cbn in H. discriminate H.
-  - (* xe2 *) destruct r as [|c2 r2]; [apply Hgen; reflexivity|].
-    destruct c2; try (apply Hgen; reflexivity).
-    destruct r2 as [|c3 r3]; [apply Hgen; reflexivity|].
-    destruct c3; try (apply Hgen; reflexivity). cbn in H. discriminate H.
+  destruct (go_to_lower_cons c r) as [E|[[tl E]|[tl E]]]; rewrite E in H |- *; cbn [forallb] in H.
+  - apply andb_true_iff in H. destruct H as [_ H]. unfold to_lower. cbn [map]. f_equal. apply IH. exact H.
+  - discriminate H.
+  - discriminate H.
+Qed.
+
+Lemma to_lower_byte_punct x c : (x = "." \/ x = "+" \/ x = "-")%byte -> to_lower_byte c = x -> c = x.
+Proof.
+  intros Hx H. unfold to_lower_byte in H. destruct (is_upper c) eqn:Eu; [|exact H].
+  exfalso. destruct Hx as [ -> | [ -> | -> ] ]; destruct c; try discriminate Eu; discriminate H.
 Qed.
 
 Lemma lower_head x s : (x = "." \/ x = "+" \/ x = "-")%byte ->
   has_prefix [x] (go_to_lower s) = true -> exists r, s = x :: r /\ go_to_lower s = x :: go_to_lower r.
 Proof.
   intros Hx H. destruct s as [|c r]; [discriminate H|].
-  destruct Hx as [->|[->|->]];
-    (destruct c; try (cbn in H; discriminate H); try (eexists; split; reflexivity);
-     [ (* xc4 *) destruct r as [|c2 r2]; [cbn in H; discriminate H|]; destruct c2; cbn in H; discriminate H
-     | (* xe2 *) destruct r as [|c2 r2]; [cbn in H; discriminate H|];
-       destruct c2; try (cbn in H; discriminate H);
-       destruct r2 as [|c3 r3]; [cbn in H; discriminate H|]; destruct c3; cbn in H; discriminate H ]).
+  destruct (go_to_lower_cons c r) as [E|[[tl E]|[tl E]]]; rewrite E in H |- *; cbn [has_prefix] in H;
+    rewrite andb_true_r in H; apply byte_eqb_eq in H.
+  - symmetry in H. apply (to_lower_byte_punct x c Hx) in H. subst c.
+    exists r. split; [reflexivity|]. f_equal.
+    destruct Hx as [ -> | [ -> | -> ] ]; reflexivity.
+  - exfalso. destruct Hx as [ -> | [ -> | -> ] ]; discriminate H.
+  - exfalso. destruct Hx as [ -> | [ -> | -> ] ]; discriminate H.
 Qed.
 
 Lemma lower_nosign_trim s2 : no_sign (go_to_lower s2) = true -> trim_left_signs s2 = s2.
@@ -499,15 +514,15 @@ Proof.
       + rewrite (Hpt eq_refl) in Hne. cbn in Hne. congruence.
     - cbn [app]. cbn [forallb] in Hi. apply andb_true_iff in Hi. destruct Hi as [Hi0 _].
       destruct (digit_not_sign i0 Hi0) as [N1 N2]. apply split_sign_other; assumption. }
-  unfold read_literal. fold rest. rewrite Hsplit.
-  rewrite (span_digits_app ip rest Hi Hrest_head).
+  unfold read_literal. fold rest. rewrite Hsplit. cbv beta iota.
+  rewrite (span_digits_app ip rest Hi Hrest_head). cbv beta iota.
   (* fraction *)
   assert (Hfrac : match rest with "."%byte :: r => span_digits r | _ => ([], rest) end = (fp, ex)).
   { subst rest. destruct pt; cbn [app].
     - apply span_digits_app; [exact Hf|]. destruct ex; [exact I|apply Hexh].
     - rewrite (Hpt eq_refl). destruct ex as [|c ex']; [reflexivity|].
       destruct Hexh as [_ Hdot]. destruct c; try reflexivity; discriminate Hdot. }
-  rewrite Hfrac. destruct (ip ++ fp) as [|m0 m'] eqn:Em; [congruence|].
+  rewrite Hfrac. cbv beta iota. destruct (ip ++ fp) as [|m0 m'] eqn:Em; [congruence|].
   rewrite (read_exponent_shape ex e Hex). reflexivity.
 Qed.
 
